@@ -59,6 +59,30 @@ for where, rec in ((len(recs) // 2, minecraft.Version('verif-mid', minecraft.PRE
             changed.append({'proto': pv, 'inserted': rec.id, 'table': tn, 'before': before[pv].get(tn), 'after': after.get(tn, after)})
     if changed:
         break
+# while initglobals() is rebuilding the index map (it clears it and refills it record by record, not atomically), a table
+# asked for by another thread is either refused (KeyError) or the right one - never the table of another version
+if not changed:
+    idx = minecraft.PROTOCOL_VERSION_INDICES
+    full = list(idx.items())
+    idx.clear()
+    try:
+        for k, (p, i) in enumerate(full):
+            if k % 37 == 0:
+                for pv in sup[::9]:
+                    try:
+                        t = table(ctxs[pv])
+                    except Exception:
+                        continue
+                    if t != before[pv]:
+                        tn = next(x for x in before[pv] if t.get(x) != before[pv][x])
+                        changed.append({'proto': pv, 'inserted': 'index map refilled up to entry %d of %d' % (k, len(full)), 'table': tn, 'before': before[pv][tn], 'after': t[tn]})
+                        break
+            if changed:
+                break
+            idx[p] = i
+    finally:
+        idx.clear()
+        idx.update(full)
 def dup(c):
     ids = [i for i, _k in c['after']] if isinstance(c['after'], list) else []
     return len(ids) != len(set(ids))
@@ -178,7 +202,7 @@ def run(chk):
         for c in json.loads(p.stdout.decode()):
             ids = [i for i, _k in c['after']] if isinstance(c['after'], list) else []
             dup = sorted(set(i for i in ids if ids.count(i) > 1))
-            what = ('protocol %d %s, asked through a context created before version %r was inserted and the tables rebuilt: ' % (c['proto'], c['table'], c['inserted']) +
+            what = ('protocol %d %s, asked through a context created before the tables were rebuilt (%s): ' % (c['proto'], c['table'], c['inserted'] if 'index map' in str(c['inserted']) else 'version %r inserted' % c['inserted']) +
                     ('classes %s share id %s' % ([k.split(':')[-1] for i, k in c['after'] if i == dup[0]], dup[0]) if dup else 'the table changed (%s)' % (str(c['after'])[:120])))
             chk.violation('extension', 'extension:%d:%s' % (c['proto'], c['table']), {'case': c}, what)
     chk.sample('tables', {'proto': 757, 'table': 'clientbound.play',
